@@ -304,6 +304,7 @@ fn shaped_key_pairs(rep: &Report) {
 pub fn run(rep: &Report) {
     let seed = rep.seed;
     rep.set_rule("E-ENV: every tape of Read/Write answers within the stated budgets is executed on the real code; read partitions in tiny scope are exhaustive (every composition of L into parts <= cs). A case is one complete execution; distinct non-trivial = distinct ciphertext streams (i.e. distinct (keys, length, chunking)) that were produced by the real encryptor and decrypted again by the real decryptor");
+    rep.rule_add("Every final-chunk length 0..=65536 at production chunk size round-trips through the two real chunk loops.");
     rep.rule_add("CLI round trips over {FILE arguments, stdin/stdout pipes, named pipes as FILE arguments} x {fresh, pre-existing longer output files}.");
     rep.assume("key and plaintext byte values come from seed-derived alphabets (4 identities, formula plaintexts)");
     rep.assume("lengths beyond 3*cs+1 rest on the loop state being independent of the chunk index (the nonce/counter dimension is swept in C06/C19)");
@@ -409,6 +410,7 @@ pub fn run(rep: &Report) {
     rep.extra("production_executions", json!(execs.load(Ordering::Relaxed)));
     rep.extra("production_lengths", json!(lens));
     rep.sample(json!({"scope":"production","L":cs+1,"sender":"S","recipient":"R","rng":"seam","reads":"bounded menu {full,1,avail-1,ceil(avail/2)}","budget":"<=2 short answers in total (thorough), <=1 for L>=cs (quick)"}));
+    crate::c06::chunk_length_sweep(rep, "C01", false);
     rep.set_exhaustive(true);
 }
 
